@@ -321,7 +321,22 @@ let handle_lex fields =
     let cs = parse_chars txt in
     count_case txt (L.length cs >= 2); sample "lex" txt impl;
     let m = model_lex cs in
-    if m <> impl then mismatch "lex" txt impl m;
+    if m <> impl then begin
+      mismatch "lex" txt impl m;
+      (* the model flags exactly the malformed lexemes (C11 lemmas): a byte range it flags and the
+         implementation does not diagnose is a missed diagnostic on this input *)
+      let starts s = L.map int_of_string (L.filter (fun x -> x <> "") (split_on ',' (field "starts" s))) in
+      let errs s = L.map int_of_string (L.filter (fun x -> x <> "") (split_on ',' (field "errs" s))) in
+      (try
+         let ms = starts m and is_ = starts impl in
+         let range st i = (L.nth st i, L.nth st (i + 1)) in
+         let impl_ranges = L.map (range is_) (errs impl) in
+         L.iter (fun i ->
+             let (a, b) = range ms i in
+             if not (L.exists (fun (c, d) -> c < b && a < d) impl_ranges) then
+               oracle_fail "lex" txt (Printf.sprintf "FAIL C11: the malformed lexeme at bytes %d..%d is not diagnosed" a b)) (errs m)
+       with _ -> ())
+    end;
     if orc <> "ok" then begin
       if String.length orc > 11 && String.sub orc 0 11 = "FAIL KNOWN " then
         (match split_on ' ' orc with _ :: _ :: key :: _ -> known_hit "lex" key txt | _ -> ())
